@@ -24,7 +24,8 @@ RULE = ("(a) coverage-guided fuzzing (libFuzzer + ASan) of zif_open and tzm_open
         "every present key looked up through `tzmap show` and `dconv --zone MAP:KEY`, absent keys "
         "(neighbours of present keys, one byte shorter/longer, beyond both ends) must be absent. "
         "(d) zone specifications with long / odd names through dconv --zone. Non-trivial: fuzz "
-        "inputs that pass the open; map lookups of keys adjacent in sort order to a key of different length")
+        "inputs that pass the open; map lookups of keys adjacent in sort order to a key of different length"
+        " Map sources with an odd number of lines end without a newline; absent keys also through dconv --zone MAP:KEY and in front of a present key in dzone.")
 ASSUMPTIONS = ["map sources are sorted and duplicate-free as `tzmap check` demands",
                "a libFuzzer timeout / oom artifact is load noise unless it reproduces standalone"]
 
